@@ -529,4 +529,6 @@ def run(model, tier):
     # batch clause
     from .. import pw
     pw.check(model, res, tier)
+    from . import c06_stale
+    c06_stale.check(model, res)
     return res
